@@ -25,8 +25,8 @@ Specification side of C08, written from the standards and not from parse.c:
 All arithmetic in `Nat`; `roundUp` is *defined* by case distinction on the remainder (not by chibicc's align_to formula)
 and proved to be the least multiple ≥ n in Lemmas/LayoutLemmas.lean.
 
-(d) which of the declarations over these constructs are constraint violations (`specAccepted`): an `aligned(n)` other than
-    0 / a power of two ≤ 2^28, a bit-field whose declared type is not an integer type.
+(d) which of the declarations over these constructs are constraint violations (`specAccepted`): an `aligned(n)` or
+    `_Alignas(n)` other than 0 / a power of two ≤ 2^28, a bit-field whose declared type is not an integer type.
 
 Core Lean only; executable (validated against gcc 12 through `drv_c08 speclayout`).
 -/
@@ -235,7 +235,7 @@ mutual
     | .union _ al ms => alignedOk al && specAcceptedMs ms
   def specAcceptedAs : Aligns → Bool
     | .nil => true
-    | .const _ rest => specAcceptedAs rest
+    | .const n rest => (n == 0 || isPow2le28 n) && specAcceptedAs rest     -- C11 6.7.5p3: a valid alignment or zero
     | .type t rest => specAccepted t && specAcceptedAs rest
   def specAcceptedMs : Members → Bool
     | .nil => true
